@@ -216,6 +216,7 @@ Fixpoint src_run_loop (cfg : config) (fuel : nat) (endt : Z) (st : state) : stat
       | Some (e, rest) =>
           if src_until cfg (e_time e) endt then
             let '(st1, l1) := src_exec_event cfg (set_events st rest) e in
+            if has_raise l1 then (st1, l1, false) else
             let '(st2, l2, ok) := src_run_loop cfg n endt st1 in
             (st2, l1 ++ l2, ok)
           else (set_events (set_time (set_events st rest) endt) (ev_insert e rest), [], true)
@@ -229,7 +230,8 @@ Proof.
   destruct (pop_event (s_events st)) as [[e rest]|]; [|reflexivity].
   rewrite src_until_spec. destruct (e_time e <=? endt); [|reflexivity].
   rewrite <- exec_event_of_source.
-  destruct (exec_event cfg (set_events st rest) e) as [st1 l1]. rewrite IH. reflexivity.
+  destruct (exec_event cfg (set_events st rest) e) as [st1 l1]. destruct (has_raise l1); [reflexivity|].
+  rewrite IH. reflexivity.
 Qed.
 
 Definition src_run_for (cfg : config) (fuel : nat) (d : Z) (st : state) : state * list logitem * bool :=
